@@ -464,6 +464,17 @@ func (c *FC) isRequiredStepError(iff *ssa.If) bool {
 	if call == nil {
 		return false
 	}
+	// only steps that DO something (store, ledger, event — directly or through module callees):
+	// a pure validation call that can fail is a precondition and must be in the table
+	effectful := false
+	for _, e := range c.effectSites() {
+		if e == ssa.Instruction(call) {
+			effectful = true
+		}
+	}
+	if !effectful {
+		return false
+	}
 	succ := c.successReturns()
 	if len(succ) == 0 {
 		return false
@@ -475,4 +486,82 @@ func (c *FC) isRequiredStepError(iff *ssa.If) bool {
 		}
 	}
 	return true
+}
+
+// ctxDiscipline: in every module function reachable from the given roots, each
+// context-typed argument of each call is the transaction's own context (the ctx
+// parameter or its Unwrap/Wrap image) — never a CacheContext branch, a context with a
+// replaced event manager, or a fresh background context. Without this, an effect that
+// the other rules see "on every success path" could land in a branch that is discarded.
+func ctxDiscipline(p *Prog, r *Report, roots map[string]*ssa.Function) {
+	reach := p.reachableFrom(roots)
+	var fns []*ssa.Function
+	for fn := range reach {
+		fns = append(fns, fn)
+	}
+	sort.Slice(fns, func(i, j int) bool { return funcName(fns[i]) < funcName(fns[j]) })
+	n, bad := 0, 0
+	for _, fn := range fns {
+		x := p.tx(fn)
+		for _, b := range fn.Blocks {
+			for _, in := range b.Instrs {
+				var common *ssa.CallCommon
+				switch c := in.(type) {
+				case *ssa.Call:
+					common = &c.Call
+				case *ssa.Defer:
+					common = &c.Call
+				case *ssa.Go:
+					common = &c.Call
+				}
+				if common == nil {
+					continue
+				}
+				vals := append([]ssa.Value(nil), common.Args...)
+				if common.IsInvoke() {
+					vals = append(vals, common.Value)
+				}
+				for _, a := range vals {
+					T := a.Type()
+					if mi, ok := a.(*ssa.MakeInterface); ok {
+						T = mi.X.Type()
+					}
+					if !isCtxType(T) {
+						continue
+					}
+					n++
+					t := x.Of(a, in)
+					if t.Op != "ctx" {
+						bad++
+						callee := "call"
+						if call, ok := in.(*ssa.Call); ok {
+							callee = callNameOf(x, call)
+						}
+						r.fail("ctx-discipline", fmt.Sprintf("ctx-discipline/%s/%s", funcName(fn), callee), p.instrPos(in),
+							fmt.Sprintf("%s passes a derived context %s to %s: effects made through it are not effects on the transaction's context", funcName(fn), t, callee))
+					}
+				}
+			}
+		}
+	}
+	if bad == 0 {
+		r.ok("ctx-discipline", "ctx-discipline/all", "", fmt.Sprintf("%d context arguments in %d reachable functions are all the transaction's own context", n, len(fns)))
+	}
+	r.floor("context-arguments", n, 3)
+}
+
+func txRoots(p *Prog, names ...string) map[string]*ssa.Function {
+	out := map[string]*ssa.Function{}
+	for _, n := range names {
+		out[n] = handlerFn(p, n)
+	}
+	return out
+}
+
+func allTxRoots(p *Prog) map[string]*ssa.Function {
+	out := map[string]*ssa.Function{}
+	for _, h := range p.txHandlers() {
+		out[h.Name] = h.Fn
+	}
+	return out
 }
